@@ -9,7 +9,7 @@
 //!   cmd    (cmd C) (st S..) (text "..") (impl RC)                                 writer output of a command read back by parse_command
 //!   script (st S..) (lines "l1" "l2" ..) (impl (step RC)..)                       read_command until EOF / panic / hang
 //!   gua    (st S..) (response "..") (impl (ok E..)|(err ..)|(panic ..))           get_unsat_assumptions (fake solver)
-//! R = (ok E) | (err "msg") | (panic "loc");  RC = (ok C) | (err "msg") | (panic "loc") | (hang) | (eof)
+//! R = (ok E) | (err "msg") | (panic "file:line" "message");  RC = (ok C) | (err "msg") | (panic "file:line" "message") | (hang) | (eof)
 use crate::c05::*;
 use crate::dump::*;
 use crate::exprgen::lit_value;
@@ -41,9 +41,9 @@ fn dump_res(ctx: &Context, r: &Result<Result<ExprRef, String>, String>, stats: &
     match r {
         Ok(Ok(e)) => format!("(ok {})", dump_expr(ctx, *e)),
         Ok(Err(m)) => format!("(err {})", quote(m)),
-        Err(_) => {
+        Err(m) => {
             stats.bump("impl_panic_loc", &last_panic_loc());
-            format!("(panic {})", quote(&last_panic_loc()))
+            format!("(panic {} {})", quote(&last_panic_loc()), quote(m))
         }
     }
 }
@@ -350,7 +350,7 @@ fn dump_cmd_res(ctx: &Context, r: &Result<Result<SmtCommand, String>, String>, s
                 "(hang)".to_string()
             } else {
                 stats.bump("impl_panic_loc", &last_panic_loc());
-                format!("(panic {})", quote(&last_panic_loc()))
+                format!("(panic {} {})", quote(&last_panic_loc()), quote(&m))
             }
         }
     }
@@ -383,6 +383,101 @@ fn case_cmdtext(id: &str, ctx: &mut Context, syms: &[ExprRef], text: &str, origi
     stats.bump("cmdtext_origin", origin);
     stats.bump(&format!("cmdtext_result:{origin}"), match &res { Ok(Ok(_)) => "ok", Ok(Err(_)) => "err", Err(_) => "panic" });
     format!("(case {id} (kind cmdtext) (st{}) (text {}) (origin {}) (impl {}))", dump_st(ctx, syms), quote(text), quote(origin), dump_cmd_res(ctx, &res, stats))
+}
+
+/// A balanced term `(op a1 .. an)`, operands of every kind (1-bit, 4-bit, 8-bit, arrays, sorts, nested terms) under every
+/// operator / indexed operator the reader knows, with 1 to 4 operands: well-sorted only by chance.
+fn ill_sorted_term(ctx: &mut Context, r: &mut Rng) -> (Vec<ExprRef>, String) {
+    let syms = vec![
+        ctx.bv_symbol("b1", 1),
+        ctx.bv_symbol("b2", 1),
+        ctx.bv_symbol("v4", 4),
+        ctx.bv_symbol("w4", 4),
+        ctx.bv_symbol("v8", 8),
+        ctx.array_symbol("m", 2, 4),
+        ctx.array_symbol("n", 1, 1),
+    ];
+    const ATOMS: &[&str] = &[
+        "b1", "b2", "true", "false", "v4", "w4", "#b0101", "#xa", "v8", "#x3c", "#b1", "m", "n", "Bool", "(_ BitVec 4)", "(Array (_ BitVec 2) (_ BitVec 4))",
+        "(bvadd v4 w4)", "(select m #b01)", "((_ extract 1 0) v4)", "(= v4 w4)", "(store m #b01 v4)", "((as const (Array (_ BitVec 2) (_ BitVec 4))) v4)", "unknown",
+    ];
+    const OPS: &[&str] = &[
+        "not", "bvnot", "bvneg", "=", "=>", "distinct", "and", "or", "xor", "bvand", "bvor", "bvxor", "bvadd", "bvmul", "bvsub", "bvudiv", "bvsdiv", "bvurem",
+        "bvsrem", "bvsmod", "bvshl", "bvlshr", "bvashr", "bvugt", "bvuge", "bvult", "bvsgt", "bvsge", "bvslt", "concat", "select", "store", "ite",
+        "(_ zero_extend 0)", "(_ zero_extend 3)", "(_ sign_extend 0)", "(_ sign_extend 2)", "(_ extract 3 0)", "(_ extract 1 2)", "(_ extract 7 4)", "(_ extract 0 0)",
+        "(as const (Array (_ BitVec 2) (_ BitVec 4)))", "(as const (Array Bool Bool))", "Array", "_",
+    ];
+    fn term(r: &mut Rng, depth: u32) -> String {
+        if depth == 0 || r.chance(1, 2) {
+            return r.pick(ATOMS).to_string();
+        }
+        let op = *r.pick(OPS);
+        let n = match op {
+            "not" | "bvnot" | "bvneg" => 1 + r.below(2),
+            "ite" | "store" => 2 + r.below(3),
+            _ if op.starts_with('(') => 1 + r.below(2),
+            _ => 1 + r.below(3),
+        };
+        let args: Vec<String> = (0..n).map(|_| term(r, depth - 1)).collect();
+        format!("({op} {})", args.join(" "))
+    }
+    let mut t = term(r, 2);
+    if !t.starts_with('(') || ATOMS.contains(&t.as_str()) {
+        let op = *r.pick(OPS);
+        t = format!("({op} {t} {})", r.pick(ATOMS));
+    }
+    if r.chance(1, 10) {
+        t = format!("(let ((z!0 {t})) (bvadd z!0 v4))");
+    }
+    (syms, t)
+}
+
+/// An incremental script that declares / defines ONE name twice, in two push/pop scopes, at two different sorts, and uses it after
+/// each introduction (the symbol table of read_command must hold the latest declaration).  The uses are either generic
+/// (`(= N <term of N's width>)`: read against a stale sort they do not type-check) or independent of the width
+/// (`((_ extract 0 0) N)`, `(concat N N)`: read against a stale sort they silently denote something else).
+fn gen_redeclare(g: &mut Gen) -> Vec<CmdCase> {
+    let w1 = g.width();
+    let mut w2 = g.width();
+    if w2 == w1 {
+        w2 = w1 + 1 + g.rng.below(3) as WidthInt;
+    }
+    let v1 = g.bv(w1, 1);
+    let v2 = g.bv(w2, 1);
+    let s1 = g.fresh_symbol(Type::BV(w1));
+    let name = g.ctx.get_symbol_name(s1).unwrap().to_string();
+    let use1 = use_of(g, s1, w1);
+    // forget the name: the second symbol has another type
+    g.used.retain(|(n, _)| *n != name);
+    let s2 = g.ctx.bv_symbol(&name, w2);
+    g.used.push((name.clone(), Type::BV(w2)));
+    let use2 = use_of(g, s2, w2);
+    let intro = |g: &mut Gen, s: ExprRef, v: ExprRef| if g.rng.chance(1, 3) { CmdCase::Define(s, v) } else { CmdCase::Declare(s) };
+    let mut cmds = vec![CmdCase::Push(1), intro(g, s1, v1), CmdCase::Assert(use1), CmdCase::Pop(1), CmdCase::Push(1), intro(g, s2, v2)];
+    cmds.push(if g.rng.chance(1, 3) { CmdCase::GetValue(use2) } else { CmdCase::Assert(use2) });
+    if g.rng.chance(1, 2) {
+        cmds.push(CmdCase::Pop(1));
+    }
+    cmds
+}
+
+fn use_of(g: &mut Gen, s: ExprRef, w: WidthInt) -> ExprRef {
+    match g.rng.below(4) {
+        0 => {
+            let bit = g.ctx.slice(s, 0, 0);
+            let one = g.ctx.one(1);
+            g.ctx.equal(bit, one)
+        }
+        1 => {
+            let cc = g.ctx.concat(s, s);
+            let z = g.ctx.zero(2 * w);
+            g.ctx.greater(cc, z)
+        }
+        _ => {
+            let rhs = g.bv(w, 1);
+            g.ctx.equal(s, rhs)
+        }
+    }
 }
 
 /// Would `read_response` wait for another line after this answer?  It does while it counts more opening than closing
@@ -427,7 +522,7 @@ fn case_script(id: &str, ctx: &mut Context, syms: &[ExprRef], lines: &[String], 
                     steps.push_str(" (hang)");
                     stats.bump("script_end", "hang");
                 } else {
-                    steps.push_str(&format!(" (panic {})", quote(&last_panic_loc())));
+                    steps.push_str(&format!(" (panic {} {})", quote(&last_panic_loc()), quote(&m)));
                     stats.bump("script_end", "panic");
                     stats.bump("impl_panic_loc", &last_panic_loc());
                 }
@@ -564,6 +659,12 @@ fn run_inner(args: &Args) {
                     if let Some(line) = case_rt(&id, &mut ctx, root, &envs, &mut stats) {
                         out.push(&mut stats, line);
                     }
+                } else if kind == "text" && r.chance(1, 6) {
+                    // balanced terms with operands of every kind under every operator the reader knows: most are ill-sorted
+                    // (the reader has to answer with an error, the builders of Context must not be reached with such operands)
+                    let (syms, t) = ill_sorted_term(&mut ctx, &mut r);
+                    let line = case_text(&id, &mut ctx, &syms, &t, "ill-sorted", &mut stats);
+                    out.push(&mut stats, line);
                 } else if kind == "text" && r.chance(1, 4) {
                     // well-formed terms with operators and forms the writer never emits (n-ary, bvult/bvslt/distinct, let scopes)
                     let w = match root.get_type(&ctx) {
@@ -683,6 +784,22 @@ fn run_inner(args: &Args) {
                 let syms: Vec<ExprRef> = symbols_of(&ctx, &exprs).into_iter().filter(|s| Some(*s) != intro).collect();
                 let Ok(text) = write_cmd(&ctx, &cmd_to_impl(&c)) else { continue };
                 let text = text.trim_end().to_string();
+                if r.chance(1, 8) {
+                    // definitions whose value has another sort than declared, sorts of width zero, ill-sorted terms inside commands
+                    let (isyms, term) = ill_sorted_term(&mut ctx, &mut r);
+                    let sort = *r.pick(&["Bool", "(_ BitVec 1)", "(_ BitVec 4)", "(_ BitVec 8)", "(_ BitVec 0)", "(Array (_ BitVec 2) (_ BitVec 4))", "(Array (_ BitVec 0) Bool)", "(Array Bool (_ BitVec 0))"]);
+                    let t = match r.below(6) {
+                        0 => format!("(define-fun fresh!0 () {sort} {term})"),
+                        1 => format!("(define-const fresh!0 {sort} {term})"),
+                        2 => format!("(declare-const fresh!0 {sort})"),
+                        3 => format!("(declare-fun fresh!0 () {sort})"),
+                        4 => format!("(assert {term})"),
+                        _ => format!("(check-sat-assuming ({term} b1))"),
+                    };
+                    let line = case_cmdtext(&id, &mut ctx, &isyms, &t, "ill-sorted", &mut stats);
+                    out.push(&mut stats, line);
+                    continue;
+                }
                 let (t, origin) = match r.below(6) {
                     0 if text.starts_with("(declare-const ") => {
                         // (declare-fun n () T)
@@ -714,8 +831,14 @@ fn run_inner(args: &Args) {
                     g.plain_names = g.rng.chance(2, 3);
                     let k = 1 + g.rng.below(4);
                     let mut cmds = vec![];
-                    for _ in 0..k {
-                        cmds.push(gen_cmd(&mut g, &mut stats));
+                    if g.rng.chance(1, 4) {
+                        cmds = gen_redeclare(&mut g);
+                        stats.bump("script_shape", "redeclare");
+                    } else {
+                        for _ in 0..k {
+                            cmds.push(gen_cmd(&mut g, &mut stats));
+                        }
+                        stats.bump("script_shape", "random");
                     }
                     drop(g);
                     let mut declared: Vec<ExprRef> = vec![];
@@ -879,9 +1002,9 @@ fn gua_step(id: &str, sc: &mut patronus::smt::SmtLibSolverCtx, ctx: &mut Context
     let r = match &res {
         Ok(Ok(es)) => format!("(ok{})", es.iter().map(|e| format!(" {}", dump_expr(ctx, *e))).collect::<String>()),
         Ok(Err(m)) => format!("(err {})", quote(m)),
-        Err(_) => {
+        Err(m) => {
             stats.bump("impl_panic_loc", &last_panic_loc());
-            format!("(panic {})", quote(&last_panic_loc()))
+            format!("(panic {} {})", quote(&last_panic_loc()), quote(m))
         }
     };
     stats.bump("gua_result", match &res { Ok(Ok(_)) => "ok", Ok(Err(_)) => "err", Err(_) => "panic" });
